@@ -197,11 +197,11 @@ SYMS = (SymBV, SymInt, SymBool, SymFloat, SymStr, SymBytes, LazyStr, SymTD, SymD
 
 
 def is_sym(v):
-    return isinstance(v, SYMS)
+    return isinstance(v, SYMS) or type(v).__name__ == "SymBlob"
 
 
 def deep_sym(v, depth=3):
-    if isinstance(v, SYMS):
+    if isinstance(v, SYMS) or type(v).__name__ == "SymBlob":
         return True
     if depth and isinstance(v, (list, tuple)):
         return any(deep_sym(x, depth - 1) for x in v)
